@@ -84,7 +84,7 @@ def results(out):
 
 def rc(res):
     """leading return code of a result ('0', '7/15/too-many-elements', '0 <hex>')"""
-    head = res.split(" ")[0].split("/")[0].split("!")[0]
+    head = res.split(" ")[0].split("/")[0].split("!")[0].split("~")[0]
     try:
         return int(head)
     except ValueError:
